@@ -22,6 +22,7 @@ func checkC08(c *Ctx) {
 	c.Rule("C08/R7", "a key returns for each field the value at that field's index, or the empty string when the row was trimmed before it")
 	c.Rule("C08/R8", "what a projection remembers about a key depends on the key alone: every per-projection cache filled while projecting (the .config key-to-field table) is keyed by every per-result input of the cached decision — whether a key belongs to .config is a property of the result (file vs internal configuration), so it must not be cached per key")
 
+	c.Rule("C08/R10", "trimmed values are read with care: only the reviewed accessors (Key.Get, Key.string, keyNode.equalRow) index a key's stored values, everything else reads through Key.Get; where a walk over fields meets a field beyond the stored values it skips that field and continues")
 	c.Rule("C08/R9", "keys see every field: the flattened-field cache that Key.String, StringValues and the residue rely on is rebuilt whenever a field is added (same rule as C09/R10: builder leaves non-nil, reset guarded by != nil)")
 	p := mustLoad(c, loadOpts{}, "./benchproc", "./benchproc/internal/parse", "./benchfmt")
 	c08Memo(c, p)
@@ -33,6 +34,7 @@ func checkC08(c *Ctx) {
 	c08Patterns(c, p)
 	c08Get(c, p)
 	c09FlatInvariant(c, p, "C08/R9")
+	c08ValueAccess(c, p)
 }
 
 func c08Intern(c *Ctx, p *Prog) {
@@ -613,4 +615,91 @@ func c08Memo(c *Ctx, p *Prog) {
 	addAnon(mp)
 	n := checkMemoSites(c, p, R, findMemoSites(fns), nil)
 	c.Floor(R, "cache stores in the projection closures", n, 1)
+}
+
+// c08ValueAccess: a key's value slice is trimmed, so every reader must handle "field beyond the stored values".
+// (a) Only the reviewed accessors index keyNode.vals directly; everything else goes through Key.Get, which supplies ""
+// for a trimmed field. (b) Where an accessor walks several fields and skips one that lies beyond the stored values,
+// the skip continues with the next field: flattened order is not index order, so leaving the loop drops fields.
+func c08ValueAccess(c *Ctx, p *Prog) {
+	const R = "C08/R10"
+	valsF := p.Field("benchproc", "keyNode", "vals")
+	idxF := p.Field("benchproc", "Field", "idx")
+	if valsF == nil || idxF == nil {
+		c.Undecided(R, "anchor:keyNode.vals", "", "field not found")
+		return
+	}
+	allowed := map[string]string{
+		"(benchproc.Key).Get":         "the accessor itself: returns \"\" beyond the stored values (C08/R7)",
+		"(benchproc.Key).string":      "prints each field; skipping a trimmed field per field is checked below",
+		"(*benchproc.keyNode).equalRow": "compares the stored values with a row of the same (trimmed) length",
+	}
+	n := 0
+	for _, fn := range p.Funcs("benchproc") {
+		eachInstr(fn, func(b *ssa.BasicBlock, in ssa.Instruction) {
+			ia, ok := in.(*ssa.IndexAddr)
+			if !ok {
+				return
+			}
+			if f, _ := loadOfField(ia.X); f != valsF {
+				return
+			}
+			n++
+			name := fnName(fn)
+			if why, ok := allowed[name]; ok {
+				c.Allow(R, name, why)
+				c.OK(R, fmt.Sprintf("%s:indexes-vals#%d", name, n), p.pos(ia.Pos()), "reviewed accessor")
+				return
+			}
+			c.Bad(R, fmt.Sprintf("%s:indexes-vals#%d", name, n), p.pos(ia.Pos()), "a key's stored values are indexed directly outside the reviewed accessors: the values are trimmed of trailing empty strings, so a field added after the key was interned lies beyond them; code that skips such a key instead of reading \"\" (as Key.Get does) treats 'missing' differently from 'empty' — e.g. residue keys that differ only by a missing trailing configuration key are no longer reported")
+		})
+		// (b) per-field skip
+		for _, lp := range naturalLoops(fn) {
+			for blk := range lp.Blocks {
+				ifi, ok := blk.Instrs[len(blk.Instrs)-1].(*ssa.If)
+				if !ok {
+					continue
+				}
+				bo, ok := ifi.Cond.(*ssa.BinOp)
+				if !ok {
+					continue
+				}
+				// field.idx >= len(vals)  (or its mirror images)
+				isIdx := func(v ssa.Value) bool { f, _ := loadOfField(v); return f == idxF }
+				isLen := func(v ssa.Value) bool {
+					call, ok := v.(*ssa.Call)
+					if !ok {
+						return false
+					}
+					bi, ok := call.Call.Value.(*ssa.Builtin)
+					if !ok || bi.Name() != "len" {
+						return false
+					}
+					f, _ := loadOfField(call.Call.Args[0])
+					return f == valsF
+				}
+				var missingEdge int = -1
+				switch {
+				case isIdx(bo.X) && isLen(bo.Y) && bo.Op == token.GEQ, isLen(bo.X) && isIdx(bo.Y) && bo.Op == token.LEQ:
+					missingEdge = 0
+				case isIdx(bo.X) && isLen(bo.Y) && bo.Op == token.LSS, isLen(bo.X) && isIdx(bo.Y) && bo.Op == token.GTR:
+					missingEdge = 1
+				default:
+					continue
+				}
+				tgt := blk.Succs[missingEdge]
+				// follow jump-only blocks
+				for len(tgt.Instrs) == 1 && lp.Blocks[tgt] && tgt != lp.Header {
+					if _, isJ := tgt.Instrs[0].(*ssa.Jump); !isJ {
+						break
+					}
+					tgt = tgt.Succs[0]
+				}
+				stays := lp.Blocks[tgt]
+				c.Check(stays, R, fnName(fn)+":trimmed-field-skip", p.pos(ifi.Pos()), "a field beyond the stored values is skipped and the walk goes on",
+					"when a field lies beyond the key's stored values the walk over the fields ends instead of going on to the next field: flattened field order is not index order (a .config sub-field discovered late has a higher index than .fullname after it), so the remaining fields are dropped from the key's printed form")
+			}
+		}
+	}
+	c.Floor(R, "direct reads of a key's stored values", n, 2)
 }
